@@ -134,6 +134,25 @@ def float_oracle(ctx):
             fb = compute.frame_by_frame_calculation(c, x, rng.choice([1, 7, Sv, 1024]))
             if not (fb.shape == full.shape and np.allclose(fb, full, rtol=rtol, atol=atol)):
                 bad.append(dict(kind="frame_by_frame_calculation", frame_length=Lv, frame_shift=Sv, style=style, kaldi_shift=kal, N=N))
+    # "the same matrix for every chunk_size": a chunk size held in a narrow numpy integer (read from a header, an int16
+    # configuration array) on a signal longer than that type can index
+    bank = banks[0]()
+    c = compute.STFTFrameComputer(bank, frame_length_ms=25.0, frame_shift_ms=25.0, frame_style="causal")
+    for N, cs in ((40000, np.int16(1024)), (65000, np.uint16(1024)), (70000, np.uint16(4096)), (400, np.int8(100)), (300, np.uint8(200))):
+        x = nprng.randn(N)
+        full = c.compute_full(x)
+        ctx.count("float_oracle:numpy-chunk_size")
+        try:
+            fb = compute.frame_by_frame_calculation(c, x, cs)
+            ok = fb.shape == full.shape and np.allclose(fb, full, rtol=1e-9, atol=1e-12)
+            why = "shape %s vs %s" % (fb.shape, full.shape)
+        except Exception as e:  # noqa: BLE001
+            ok, why = False, "raised %s: %s" % (type(e).__name__, str(e)[:100])
+            if c.started:
+                c.finalize()
+        if not ok:
+            bad.append(dict(kind="frame_by_frame_calculation", N=N, chunk_size="%s(%d)" % (type(cs).__name__, int(cs)), problem=why,
+                            frame_length=c.frame_length, frame_shift=c.frame_shift, style="causal", kaldi_shift=False))
     return bad
 
 
